@@ -329,6 +329,12 @@ func c19Start(bin string, args []string, port int) (*c19Proc, error) {
 		}
 		if r, err := http.Get(p.base + "/v2/"); err == nil {
 			_ = r.Body.Close()
+			// make sure it is this process that answers (and not another one that won the race for the port)
+			select {
+			case err := <-p.done:
+				return nil, fmt.Errorf("process ended at start: %v\n%s", err, p.out.String())
+			case <-time.After(30 * time.Millisecond):
+			}
 			return p, nil
 		}
 		time.Sleep(5 * time.Millisecond)
@@ -436,8 +442,16 @@ func c19CLIProperty(t *rapid.T, st *Stats) {
 		_ = w.Close()
 	}
 	before := treeSnapshot(dir, false)
-	port := c19FreePort()
-	p, err := c19Start(bin, v.args(dir), port)
+	// the port is chosen by asking the kernel for a free one and releasing it again: another process (the shards of
+	// this check run side by side) can take it in between - that is the harness' problem, not the server's: try again
+	var p *c19Proc
+	for attempt := 0; attempt < 8; attempt++ {
+		p, err = c19Start(bin, v.args(dir), c19FreePort())
+		if err == nil || !strings.Contains(err.Error(), "address already in use") {
+			break
+		}
+		st.Add("port-collision-retried", 1)
+	}
 	if err != nil {
 		fail("process-does-not-start", "%v", err)
 	}
